@@ -232,3 +232,177 @@ Proof.
     destruct H as [A B]. split; [exact A|exact B].
   - split; [apply store_le_refl|left; reflexivity].
 Qed.
+
+(** ** Emissions *)
+Lemma finish_in r x : In x (snd (finish r)) -> In x (ou r) \/ x = OHalt \/ (exists n, x = OPanic n) \/ x = OBlocked.
+Proof.
+  destruct r as [[s o] f]. unfold ou. simpl. destruct f; simpl; auto; try (destruct (run s); auto);
+    intros H; apply in_app_or in H; destruct H as [H|[H|[]]]; eauto.
+Qed.
+
+Lemma finish_filter (f : out -> bool) r : f OHalt = false -> (forall n, f (OPanic n) = false) -> f OBlocked = false ->
+  filter f (snd (finish r)) = filter f (ou r).
+Proof.
+  intros H1 H2 H3. destruct r as [[s o] fl0]. unfold ou. simpl.
+  destruct fl0; simpl; try (destruct (run s); reflexivity); try reflexivity;
+    rewrite filter_app; simpl; rewrite ?H1, ?H2, ?H3; apply app_nil_r.
+Qed.
+
+Lemma finish_astore r : aStore (fst (finish r)) = aStore (st r).
+Proof. destruct r as [[s o] f]. unfold st. simpl. destruct f; simpl; try reflexivity. destruct (run s); reflexivity. Qed.
+
+Lemma finish_in_l r x : In x (ou r) -> In x (snd (finish r)).
+Proof.
+  destruct r as [[s o] f]. unfold ou. simpl. destruct f; simpl; auto; try (destruct (run s); auto);
+    intros H; apply in_or_app; auto.
+Qed.
+
+Definition emit_facts (pv : bool) (s s' : sm) (o : list out) (h r : N) (t : hash) : Prop :=
+  (if pv then ra_pv else ra_pc) (getra (aStore s) h r) = None /\
+  (if pv then ra_pv else ra_pc) (getra (aStore s') h r) = Some t /\
+  (exists p, In (if pv then OSavePrevote h r t 0 p else OSavePrecommit h r t 0 p) o) /\
+  In (if pv then OSignPrevote h r t else OSignPrecommit h r t) o /\
+  List.length (filter (if pv then is_emit_pv else is_emit_pc) o) = 1%nat.
+
+Lemma out_ok_round s h r : GI s -> (rPvCh (rl s) = true \/ rPcCh (rl s) = true) -> rOut (rl s) = Some (h, r) ->
+  h = rH (rl s) /\ r = rR (rl s).
+Proof.
+  intros ((_ & _ & O & _) & _) HC E. destruct O as [[O|O]|(O1 & O2 & _)].
+  - congruence.
+  - rewrite E in O. inversion O; auto.
+  - destruct HC; congruence.
+Qed.
+
+Lemma answer_emit s t (pv : bool) h r t' : Inv s ->
+  In (if pv then OEmitPrevote h r t' else OEmitPrecommit h r t') (snd (dispatch s (EvAnswer 0 t))) ->
+  emit_facts pv s (fst (dispatch s (EvAnswer 0 t))) (snd (dispatch s (EvAnswer 0 t))) h r t'.
+Proof.
+  intros HI. unfold dispatch.
+  destruct (cm s) as [[[ck g] op]|]; [|intros []]. cbv zeta.
+  assert (HI1 : Inv (set_cm None s)) by (apply (Inv_irrel _ _ eq_refl eq_refl eq_refl eq_refl eq_refl HI)).
+  change ((0 =? 1) && (ck =? K_consider)) with false. cbv iota.
+  destruct (negb op); [intros H; apply finish_in in H; unfold ou in H; simpl in H; destruct H as [H|[H|[[n H]|H]]]; try contradiction; destruct pv; discriminate H|].
+  match goal with |- context [if (?a && ?b && ?c) then _ else _] => destruct (a && b && c) eqn:B end; [|simpl; intros []].
+  change (0 =? 0) with true. cbv iota.
+  apply andb_true_iff in B. destruct B as [B B3]. apply andb_true_iff in B. destruct B as [B1 B2].
+  assert (R : run (set_cm None s) = Idle) by (destruct (run (set_cm None s)); try discriminate; reflexivity).
+  assert (G : GI (set_cm None s)) by (apply Inv_idle; assumption).
+  destruct (ck =? K_decide) eqn:K; intros H; apply finish_in in H;
+    (destruct H as [H|[H|[[n H]|H]]]; [|destruct pv; discriminate H..]).
+  - pose proof (record_precommit_facts t (set_cm None s)) as F. destruct F as [F1 F2 F3 F4 F5 F6].
+    destruct pv; [destruct (F5 _ _ _ H)|].
+    destruct (F6 _ _ _ H) as (E1 & E2 & E3 & E4 & E5 & E6 & E7).
+    destruct (out_ok_round _ _ _ G (or_intror B3) E2) as [-> ->]. subst t'.
+    unfold emit_facts. rewrite finish_astore, finish_filter by (intros; reflexivity).
+    split; [exact E3|split; [exact E4|split; [eexists; apply finish_in_l; exact E5|split; [apply finish_in_l; exact E6|exact E7]]]].
+  - pose proof (record_prevote_facts t (set_cm None s)) as F. destruct F as [F1 F2 F3 F4 F5 F6].
+    destruct pv; [|destruct (F5 _ _ _ H)].
+    destruct (F6 _ _ _ H) as (E1 & E2 & E3 & E4 & E5 & E6 & E7).
+    destruct (out_ok_round _ _ _ G (or_introl B3) E2) as [-> ->]. subst t'.
+    unfold emit_facts. rewrite finish_astore, finish_filter by (intros; reflexivity).
+    split; [exact E3|split; [exact E4|split; [eexists; apply finish_in_l; exact E5|split; [apply finish_in_l; exact E6|exact E7]]]].
+Qed.
+
+From GV Require Import Proofs.SMTheorems.
+
+Lemma step_start_outs s x : In x (snd (step s EvStart)) -> is_ent x = true \/ x = OHalt \/ x = OUndeliverable.
+Proof.
+  unfold step. destruct (deliverable s EvStart); [|simpl; intros [<-|[]]; auto].
+  unfold dispatch. destruct (start_up_rel (set_pend 0 s)) as (_ & B & C). unfold st, fl, ou in *.
+  destruct (start_up (set_pend 0 s)) as [[s1 o] f]. simpl in *.
+  destruct C as [-> | ->]; simpl; intros H.
+  - left. exact (proj1 (Forall_forall _ _) B x H).
+  - apply in_app_or in H. destruct H as [H|[<-|[]]]; auto. left. exact (proj1 (Forall_forall _ _) B x H).
+Qed.
+
+Definition emit_of (pv : bool) (h r : N) (t : hash) : out := if pv then OEmitPrevote h r t else OEmitPrecommit h r t.
+
+Theorem emit_step s e (pv : bool) h r t : Inv s -> In (emit_of pv h r t) (snd (step s e)) ->
+  emit_facts pv s (fst (step s e)) (snd (step s e)) h r t.
+Proof.
+  intros HI H. unfold emit_of in H.
+  assert (E : e = EvAnswer 0 t).
+  { destruct e; try (match type of H with In _ (snd (step _ ?e0)) =>
+      assert (P : Pout (ctx_of s) e0 (if pv then OEmitPrevote h r t else OEmitPrecommit h r t))
+        by (apply pout_in; [discriminate|exact H]) end; destruct pv; simpl in P; exact P).
+    apply step_start_outs in H. destruct pv; simpl in H; destruct H as [H|[H|H]]; discriminate H. }
+  subst e. revert H. unfold step. destruct (deliverable s (EvAnswer 0 t)).
+  2:{ simpl. intros [H|[]]. destruct pv; discriminate H. }
+  assert (HI0 : Inv (set_pend 0 s)) by (apply (Inv_irrel _ _ eq_refl eq_refl eq_refl eq_refl eq_refl HI)).
+  pose proof (answer_emit (set_pend 0 s) t pv h r t HI0) as A.
+  destruct (dispatch (set_pend 0 s) (EvAnswer 0 t)) as [s1 o]. simpl in *. intros H. exact (A H).
+Qed.
+
+Definition done_at (pv : bool) (h r : N) (s : sm) : Prop :=
+  (if pv then ra_pv else ra_pc) (getra (aStore s) h r) <> None.
+
+Lemma done_step pv h r s e : done_at pv h r s -> done_at pv h r (fst (step s e)).
+Proof.
+  unfold done_at. intros H. destruct (step_EF s e) as [SL _]. destruct (SL h r) as (A & B & _).
+  destruct pv.
+  - destruct (ra_pv (getra (aStore s) h r)) eqn:E; [|congruence]. rewrite (A _ eq_refl). discriminate.
+  - destruct (ra_pc (getra (aStore s) h r)) eqn:E; [|congruence]. rewrite (B _ eq_refl). discriminate.
+Qed.
+
+Lemma no_emit_after pv h r es : forall s, Inv s -> done_at pv h r s ->
+  forall outs t, In outs (run_events s es) -> ~ In (emit_of pv h r t) outs.
+Proof.
+  induction es as [|e es IH]; intros s HI HD outs t; simpl; [intros []|].
+  pose proof (step_inv s e HI) as [HI1 _]. pose proof (done_step pv h r s e HD) as HD1.
+  pose proof (emit_step s e pv h r t HI) as ES.
+  destruct (step s e) as [s1 o]. simpl in *. intros [<-|H].
+  - intros X. destruct (ES X) as (N0 & _). apply HD. exact N0.
+  - eapply IH; eauto.
+Qed.
+
+(** (I2) across restarts on the same stores: two emissions of a prevote (precommit) for the same
+    height/round in one history are the same emission *)
+Theorem emit_once pv es : forall s, Inv s -> forall i j oi oj h r t1 t2,
+  nth_error (run_events s es) i = Some oi -> nth_error (run_events s es) j = Some oj ->
+  In (emit_of pv h r t1) oi -> In (emit_of pv h r t2) oj -> i = j.
+Proof.
+  induction es as [|e es IH]; intros s HI i j oi oj h r t1 t2; simpl.
+  { destruct i; discriminate. }
+  pose proof (step_inv s e HI) as [HI1 _].
+  pose proof (emit_step s e pv h r t1 HI) as ES1. pose proof (emit_step s e pv h r t2 HI) as ES2.
+  destruct (step s e) as [s1 o]. simpl in *.
+  destruct i as [|i], j as [|j]; simpl; intros Ei Ej Hi Hj; auto.
+  - exfalso. inversion Ei; subst. destruct (ES1 Hi) as (_ & D & _).
+    apply (no_emit_after pv h r es s1 HI1 ltac:(unfold done_at; congruence) oj t2 (nth_error_In _ _ Ej) Hj).
+  - exfalso. inversion Ej; subst. destruct (ES2 Hj) as (_ & D & _).
+    apply (no_emit_after pv h r es s1 HI1 ltac:(unfold done_at; congruence) oi t1 (nth_error_In _ _ Ei) Hi).
+  - f_equal. eapply IH; eauto.
+Qed.
+
+Theorem emit_once_history sg pv es i j oi oj h r t1 t2 :
+  nth_error (run_events (sm0 sg) es) i = Some oi -> nth_error (run_events (sm0 sg) es) j = Some oj ->
+  In (emit_of pv h r t1) oi -> In (emit_of pv h r t2) oj -> i = j.
+Proof. apply emit_once. apply Inv_init. Qed.
+
+Lemma run_events_split s es outs : In outs (run_events s es) ->
+  exists es1 e, outs = snd (step (final_state s es1) e).
+Proof.
+  revert s. induction es as [|e es IH]; intros s; simpl; [intros []|].
+  destruct (step s e) as [s1 o] eqn:E. intros [<-|H].
+  - exists [], e. simpl. rewrite E. reflexivity.
+  - destruct (IH s1 H) as (es1 & e1 & X). exists (e :: es1), e1. simpl. rewrite E. exact X.
+Qed.
+
+Lemma Inv_final s es : Inv s -> Inv (final_state s es).
+Proof. revert s. induction es as [|e es IH]; intros s H; simpl; [exact H|]. apply IH. apply step_inv. exact H. Qed.
+
+(** (I2) every emitted vote was signed and saved first, in the same event, for the round the machine is
+    in; the store had no such vote before and has this one afterwards; one emission per event *)
+Theorem emit_saved_first sg pv es e h r t :
+  let s := final_state (sm0 sg) es in
+  In (emit_of pv h r t) (snd (step s e)) -> emit_facts pv s (fst (step s e)) (snd (step s e)) h r t.
+Proof. intros s. apply emit_step. apply Inv_final, Inv_init. Qed.
+
+(** (I3, part) the strategy is asked at most one thing per event, and nothing while it holds a call
+    (except in the event that delivers its answer, which asks nothing) *)
+Theorem one_request_per_event s e :
+  reqs (snd (step s e)) = [] \/ (cm s = None /\ exists k, reqs (snd (step s e)) = [k]).
+Proof. exact (proj2 (step_EF s e)). Qed.
+
+Theorem store_only_grows s e : store_le (aStore s) (aStore (fst (step s e))).
+Proof. exact (proj1 (step_EF s e)). Qed.
